@@ -218,8 +218,11 @@ template<typename T> static void add_family(std::vector<std::vector<Target>>& fa
                  RN{"exact_lra", Q_EXACT, 0}, RN{"estimation_hra", Q_EST, 1}, RN{"estimation_lra", Q_EST, 0}}) {
       const int kk = k.k, hh = k.hra;
       BuildFn b = [kk, hh](Rng& r, bool T_) { return req_image<T>(r, T_, kk, hh); };
-      f.push_back({req_name, k.name, "bytes", b, bytes_path(req_bytes<T>)});
-      f.push_back({req_name, k.name, "stream", b, stream_path(req_stream<T>)});
+      // REQ preamble = preamble_ints (first byte: 2, or 4 when n follows the 8 fixed bytes) * 4; min/max items and the compactor
+      // headers (state, section size, lg_weight, num_sections, num_items) come after it = "data" for the framework
+      auto pre = [](const Bytes& img) -> size_t { return img.empty() ? 0 : std::max<size_t>(8, 4 * static_cast<size_t>(img[0])); };
+      f.push_back({req_name, k.name, "bytes", b, bytes_path(req_bytes<T>), pre});
+      f.push_back({req_name, k.name, "stream", b, stream_path(req_stream<T>), pre});
     }
     fam.push_back(f);
   }
